@@ -866,7 +866,7 @@ func runC17(c *Ctx) {
 	r := c.R
 	r.Assume("declared frame body lengths above 16 MiB are out of scope (resource question); lz4 decoding in dependencies' assembly is not instrumented")
 	r.Assume("a start-up that fails with an error exit because the backend's system tables are unusable is not a crash; a panic / fatal error is")
-	r.Require("client_inputs_sent", "backend_hostilities", "backend_hostile_replies_sent", "control_overrides", "canary_rounds_ok", "repeated_failing_requests_sent", "tls_new_client_served_while_peers_stall", "tls_hostile_cql_inputs_sent", "requests_with_large_answers_sent_by_a_client_that_does_not_read")
+	r.Require("backend_garbage_under_fire_runs", "garbage_replies_under_fire", "client_inputs_sent", "backend_hostilities", "backend_hostile_replies_sent", "control_overrides", "canary_rounds_ok", "repeated_failing_requests_sent", "tls_new_client_served_while_peers_stall", "tls_hostile_cql_inputs_sent", "requests_with_large_answers_sent_by_a_client_that_does_not_read")
 	maxvs := []string{"v4", "DSEv2"}
 	if !c.Quick() {
 		maxvs = []string{"v4", "v5", "DSEv1", "DSEv2"} // the harness clients of this check speak v4, so a v3 maximum is left to C13/C20
@@ -875,6 +875,36 @@ func runC17(c *Ctx) {
 	corpusDir := filepath.Join(c.Dir, "out", "logs", "c17")
 	_ = os.MkdirAll(corpusDir, 0o755)
 	job := 0
+	// ---------------------------------------------------------------- backend garbage while well-behaved clients pipeline
+	// (in-process proxy; C01's pairing oracle decides "a well-behaved client keeps receiving answers": only its lost-reply
+	// verdicts count here - premise: every attempt was answered or dropped, and nothing moves any more while that client's own
+	// OPTIONS are still answered)
+	for i := 0; i < c.Pick(3, 60); i++ {
+		job++
+		if !c.Mine(job) {
+			continue
+		}
+		sub := &Ctx{Prop: c.Prop, Tier: c.Tier, Seed: c.Seed + int64(i), Shard: 0, NShards: 1, R: mon.NewResult("C17"), Dir: c.Dir}
+		sub.prog = c.prog
+		killUnderFireHow(sub, int(c.Seed)+i, 16+8*(i%2), c.Pick(120, 300), true)
+		r.Eval(1)
+		r.Obs("backend_garbage_under_fire_runs", 1)
+		for _, k := range []string{"garbage_replies_under_fire", "requests_beside_garbage_replies"} {
+			r.Obs(k, sub.R.Observed[k])
+		}
+		for k := range sub.R.Distinct {
+			r.NonTrivial(k)
+		}
+		for _, v := range sub.R.Violations {
+			if strings.HasPrefix(v.Signature, "C01/lost-reply/") {
+				v.Signature = "C17/well-behaved-request-unanswered/" + strings.TrimPrefix(v.Signature, "C01/lost-reply/")
+				v.Detail = "a node answers requests with bytes that are no answer (the proxy closes that backend connection) while well-behaved clients pipeline requests: " + v.Detail
+				r.Violate(v)
+			} else {
+				fmt.Printf("note: backend-garbage-under-fire reported %s (judged by its own property's check)\n", v.Signature)
+			}
+		}
+	}
 	for mi, maxv := range maxvs {
 		// ------------------------------------------------------------ phase A: hostile client byte streams
 		job++
